@@ -204,36 +204,3 @@ Qed.
 Lemma shutb_live : forall s p, pl s = PLive p -> shutb s = pshut p.
 Proof. unfold shutb. intros. now rewrite H. Qed.
 
-Lemma W5_step : forall s l s', (lock s = None -> todo s = []) -> W1b s -> HFX s -> W5 s -> step s l = Some s' -> W5 s'.
-Proof.
-  intros s l s' AT A1b HF I H.
-  assert (O : own s' = own s) by (eapply own_step; eauto).
-  step_inv H.
-  all: hold_facts; cs_facts.
-  all: unfold W5, evwork_due in *.
-  all: rewrite ?O.
-  all: ssimp.
-  all: ifs.
-  all: ssimp.
-  all: try assumption.
-  all: try pool_inv; try use_pool I.
-  all: outs.
-  all: subst.
-  all: cbn [pdone pshut pstarted p_set_items p_set_head p_set_tail p_set_idle p_set_done p_set_started p_set_shut] in *.
-  all: try assumption.
-  all: try (intros q Q; destruct (I q Q) as (I1 & I2)).
-  all: try match goal with E : lock _ = None |- _ => pose proof (AT E) as TD end.
-  all: try match goal with E : todo _ = _ |- _ => rewrite E in * end.
-  all: split; [intros D1; try specialize (I1 D1) | intros D1 D2; try specialize (I2 D1 D2)].
-  all: unfold upd, die_effs in *.
-  all: cbn [In app] in *.
-  all: idtac "G".
-  Time all: repeat match goal with
-       | H : context [Nat.eqb ?a ?b] |- _ => destruct (Nat.eqb a b) eqn:?
-       | |- context [Nat.eqb ?a ?b] => destruct (Nat.eqb a b) eqn:?
-       | |- context [if ?b then _ else _] => destruct b eqn:?
-       end; cbn [In app] in *.
-  all: idtac "H".
-  Time all: try (timeout 2 tauto).
-  all: show.
-Admitted.
